@@ -717,7 +717,17 @@ func (st *tunnelClientStream) SendMsg(m interface{}) error {
 		return status.Errorf(codes.ResourceExhausted, "serialized message is too large: %d bytes > maximum %d bytes", len(b), math.MaxUint32)
 	}
 
-	return st.sender.send(b)
+	err = st.sender.send(b)
+	if err != nil {
+		// If the send was interrupted because the RPC has already been finished
+		// with an error (e.g. the server rejected or aborted it while we were
+		// waiting for flow control window), report that error, not the
+		// cancellation of the stream's context that merely resulted from it.
+		if doneErr := st.loadDone(); doneErr != nil && doneErr != io.EOF {
+			return doneErr
+		}
+	}
+	return err
 }
 
 func (st *tunnelClientStream) RecvMsg(m interface{}) error {
